@@ -97,6 +97,19 @@ def gen_family(rng, n_classes=None, kinds=None, n_variants=None, rich=False):
             classes[rid] = {'name': f'rootopt{v_index(variants, v)}', 'group': '', 'base': 'Task', 'params': [], 'kind': 'json', 'run_args': [],
                             'inputs': [{'by': 'name', 'ref': ref2, 'default': 5}], 'pull': [ref2], 'in_kinds': {ref2: classes[cid2]['kind']}}
             main.setdefault('tasks', []).append(rid)
+        if rich and v['ns'] and '::' in v['ns'] and rng.random() < 0.5 and any(classes[c]['kind'] not in ('genempty',) for c in pfile['tasks']):
+            # a task in the namespace `k` with an OPTIONAL input named like a task that exists only in `m::k`: `k::t` is not `m::k::t`
+            # (a namespace path is never matched by its suffix) — the default is used
+            last = v['ns'].split('::')[-1]
+            if not any(u.endswith(' as ' + last) for u in uses):
+                cid3 = rng.choice(sorted(c for c in pfile['tasks'] if classes[c]['kind'] != 'genempty'))
+                sid = f'K{len(classes)}'
+                ref3 = gen.slug_of(classes[cid3], modname)
+                classes[sid] = {'name': f'sfxopt{v_index(variants, v)}', 'group': '', 'base': 'Task', 'params': [], 'kind': 'json', 'run_args': [],
+                                'inputs': [{'by': 'name', 'ref': ref3, 'default': 6}], 'pull': [ref3], 'in_kinds': {ref3: classes[cid3]['kind']}}
+                sfx = f'sfx{v_index(variants, v)}.json'         # (a name that survives the file-name rewriting of sibling variants)
+                files[sfx] = {'tasks': [sid]}
+                uses.append('@cfg/' + sfx + ' as ' + last)
         files['main_' + v['file']] = main
     # a sibling of a variant with a join task: the same tree, except for one parameter of the FIRST of the two joined inputs
     for v in [w for w in variants if w.get('join')]:
@@ -159,8 +172,9 @@ def gen_ops(rng, spec, variants, length, allow):
     """ops refer to chains by build number and to tasks by slug"""
     # a directory-valued result held in memory by one object is only a path: deleting the directory through ANOTHER object
     # leaves that path dangling (the value of directory data is the path, by design) — delete_data is therefore generated
-    # only for pipelines without directory kinds; deletion of directories is exercised by C05/C07's single-object cases
-    has_dir = any(c['kind'] in ('dir', 'continues') for c in spec['classes'].values())
+    # only for pipelines without directory kinds; deletion of directories is exercised by C05/C07's single-object cases.  The same
+    # holds for a GeneratedDataLazy value: it is a reader of the stored file
+    has_dir = any(c['kind'] in ('dir', 'continues', 'genlazy') for c in spec['classes'].values())
     slugs = [gen.slug_of(c, spec['module']) for c in spec['classes'].values()]
     ops, chains = [], []
     ops.append({'op': 'build', 'variant': 0}); chains.append(len(chains))
